@@ -223,6 +223,23 @@ func (ex *Exec) identVal(name string, env *Env) (Val, bool) {
 				return v, true
 			}
 		}
+		// a clause of the root function evaluated inside a helper an edit moved its statements into: names the helper does
+		// not have are the root function's
+		if env.fr.sole && len(ex.st.frames) > 0 && ex.st.frames[0] != env.fr {
+			root := ex.st.frames[0]
+			if cs := root.cellsBy[base]; len(cs) > 0 {
+				c := cs[len(cs)-1]
+				if k >= 0 && k < len(cs) {
+					c = cs[k]
+				}
+				if v, ok := ex.st.cells[c]; ok {
+					return v, true
+				}
+			}
+			if v, ok := root.params[name]; ok {
+				return v, true
+			}
+		}
 		// the variable was renamed since the contract was written: resolve it by position and type
 		if !env.renaming {
 			if cur, ord, isParam, ok := ex.renamedTo(env.fr.fn, name); ok {
